@@ -10,7 +10,7 @@ pub const RULE: &str = "cases = accepted connected graphs (G-phys) with generic 
 
 pub fn gen_case(t: &mut Tape, tier: Tier) -> Option<Phys> {
     let mo = if t.chance(0.4) { 1.0 / 64.0 } else { 0.15 };
-    let opts = PhysOpts { max_e: tier.pick(8, 9), max_l: 5, min_omega: mo, dmax: 6, max_ops: 2, profile: gen::CORNERS };
+    let opts = PhysOpts { max_e: tier.pick(8, 9), max_l: 8, min_omega: mo, dmax: 6, max_ops: 2, profile: gen::CORNERS };
     if t.chance(0.1) {
         // "all accepted graphs" includes disconnected ones: physical component + massive vacuum component
         gen::gen_phys_union(t, &opts)
